@@ -169,6 +169,15 @@ def concrete_check(desc, what, V, W, B, uniq='R'):
     for k, x in same.items():
       if not (x == v): return f"{k} does not compare equal to the original"
       if h(x) != h(v): return f"{k} == original but hash differs ({h(x)[0]} vs {h(v)[0]})"
+    # hashing follows the value through in-place modification (@=, <<= + flip, a leaf write)
+    w = inst(W)
+    v @= w
+    if h(v) != h(w): return "after v @= w the hash of v is not the hash of w (stale hash)"
+    u = inst(V); h(u); u <<= w; u._flip()
+    if h(u) != h(w): return "after u <<= w and the flip the hash of u is not the hash of w (stale hash)"
+    t = inst(V); h(t)
+    for p, off, wd in offs: get(t, p).__imatmul__(W[p])
+    if not (t == w) or h(t) != h(w): return "after writing every leaf in place the struct does not hash like an equal one"
   else:
     return f"unknown sub-check {what}"
   return None
